@@ -81,6 +81,50 @@ func init() {
 		f.set(t, Val{T: []Term{x.sha256(x.normBytes(f.cur.heap, args[0]), args[0].T[2])}, Typ: t.Type()})
 	}
 	models["time.Now"] = func(f *frame, t *ssa.Call, args []Val) { f.setFreshResult(t) }
+	// io.ReadFull(r, buf): fills buf from the reader or fails; only buf's backing array is written
+	models["io.ReadFull"] = func(f *frame, t *ssa.Call, args []Val) {
+		x := f.x
+		buf := args[1]
+		f.havocBytes(buf)
+		n := x.S.Declare("readn", SBV(64))
+		e := x.S.Declare("readerr", SInt)
+		f.assume(And(IntLe(IntConst(0), e), BVCmp("bvule", n, buf.T[2]), Implies(Eq(e, IntConst(0)), Eq(n, buf.T[2]))))
+		x.note("io.ReadFull: reads exactly len(buf) bytes or returns an error; the bytes read are arbitrary (reader contents are not modelled)")
+		f.vals[t] = Val{T: []Term{n, e}, Typ: t.Type()}
+	}
+	models["crypto/sha256.New"] = func(f *frame, t *ssa.Call, args []Val) {
+		x := f.x
+		h := f.freshRef()
+		f.cur.heap = x.H.SetAt(f.cur.heap, "C.hashstate", h, Store(x.H.Get(f.cur.heap, "C.hashstate", SArr(SInt, SInt)), h, IntConst(0)))
+		f.vals[t] = Val{T: []Term{h}, Typ: t.Type()}
+	}
+	invokeModels["hash.Hash.Write"] = func(f *frame, t *ssa.Call, recv Val, args []Val) {
+		x := f.x
+		x.S.DeclareFun("hcat", []Sort{SInt, SArr(SBV(64), SBV(8)), SBV(64)}, SInt)
+		st := x.H.Get(f.cur.heap, "C.hashstate", SArr(SInt, SInt))
+		ns := app(SInt, "hcat", Select(st, recv.One()), x.normBytes(f.cur.heap, args[0]), args[0].T[2])
+		f.cur.heap = x.H.SetAt(f.cur.heap, "C.hashstate", recv.One(), Store(st, recv.One(), ns))
+		f.vals[t] = Val{T: []Term{args[0].T[2], IntConst(0)}, Typ: t.Type()}
+	}
+	invokeModels["hash.Hash.Sum"] = func(f *frame, t *ssa.Call, recv Val, args []Val) {
+		x := f.x
+		x.S.DeclareFun("hfin", []Sort{SInt}, SArr(SBV(64), SBV(8)))
+		x.note("hash.Hash.Sum(b): modelled for the b == nil use (digest in a fresh 32-byte slice); digests are uninterpreted functions of the absorbed byte sequence")
+		st := x.H.Get(f.cur.heap, "C.hashstate", SArr(SInt, SInt))
+		ref := f.freshRef()
+		m := x.H.Get(f.cur.heap, "M.uint8[]", wrapSort(SBV(8), 1))
+		f.cur.heap = x.H.SetAt(f.cur.heap, "M.uint8[]", ref, Store(m, ref, app(SArr(SBV(64), SBV(8)), "hfin", Select(st, recv.One()))))
+		n := BVBin("bvadd", args[0].T[2], BVInt(32, 64))
+		f.safe("sum", t.Pos(), isCallExpr, Eq(args[0].T[2], BVInt(0, 64)), "hash.Hash.Sum is only modelled for an empty prefix")
+		f.vals[t] = Val{T: []Term{ref, BVInt(0, 64), n, n}, Typ: t.Type()}
+	}
+	invokeModels["crypto/cipher.Stream.XORKeyStream"] = func(f *frame, t *ssa.Call, recv Val, args []Val) {
+		x := f.x
+		f.safe("xor", t.Pos(), isCallExpr, BVCmp("bvuge", args[0].T[2], args[1].T[2]), "XORKeyStream panics when dst is shorter than src")
+		f.havocBytes(args[0])
+		x.note("cipher.Stream.XORKeyStream: writes dst only; the key stream is not modelled (output bytes arbitrary)")
+		f.vals[t] = Val{Typ: t.Type()}
+	}
 }
 
 func (x *Exec) sha256(norm, n Term) Term {
@@ -284,6 +328,30 @@ func (x *Exec) specBuiltin(c *EvalCtx, name string, args []ast.Expr) (Val, bool)
 		}
 		x.S.DeclareFun("uf_"+name, []Sort{SArr(SBV(64), SBV(8)), SBV(64)}, SBV(w))
 		return scalar(app(SBV(w), "uf_"+name, x.normBytes(c.heap(), a), a.T[2]), typ), true
+	case "digestcat": // digestcat(x, y, ...): 32-byte digest of the concatenation, as absorbed by hash.Hash Write calls
+		x.S.DeclareFun("hcat", []Sort{SInt, SArr(SBV(64), SBV(8)), SBV(64)}, SInt)
+		x.S.DeclareFun("hfin", []Sort{SInt}, SArr(SBV(64), SBV(8)))
+		st := IntConst(0)
+		for _, a := range args {
+			v := c.eval(a)
+			switch u := v.Typ.Underlying().(type) {
+			case *types.Slice:
+				st = app(SInt, "hcat", st, x.normBytes(c.heap(), v), v.T[2])
+			case *types.Array:
+				if u.Len() > 40 {
+					evalFail("digestcat: array too long")
+				}
+				r := ConstArray(SArr(SBV(64), SBV(8)), BVInt(0, 8))
+				for j := int64(0); j < u.Len(); j++ {
+					r = Store(r, BVInt(j, 64), Select(v.T[0], BVInt(j, 64)))
+				}
+				st = app(SInt, "hcat", st, x.S.Define("norm", r), BVInt(u.Len(), 64))
+			default:
+				evalFail("digestcat: unsupported argument type %s", v.Typ)
+			}
+		}
+		arr := types.NewArray(types.Typ[types.Uint8], 32)
+		return Val{T: []Term{app(SArr(SBV(64), SBV(8)), "hfin", st)}, Typ: arr}, true
 	case "later": // later(p, q): object p was allocated after object q (references are handed out in increasing order)
 		a, b := c.eval(args[0]), c.eval(args[1])
 		return scalar(IntLt(b.T[0], a.T[0]), types.Typ[types.Bool]), true
@@ -292,4 +360,25 @@ func (x *Exec) specBuiltin(c *EvalCtx, name string, args []ast.Expr) (Val, bool)
 		return Val{T: []Term{a.T[0]}, Typ: types.Typ[types.UnsafePointer]}, true
 	}
 	return Val{}, false
+}
+
+// havocBytes makes the elements of a byte slice (and nothing else in its backing array) arbitrary.
+func (f *frame) havocBytes(sl Val) {
+	x := f.x
+	m := x.H.Get(f.cur.heap, "M.uint8[]", wrapSort(SBV(8), 1))
+	inner := Select(m, sl.T[0])
+	fresh := x.S.Declare("hv_bytes", SArr(SBV(64), SBV(8)))
+	var ni Term
+	if c, ok := sl.T[2].Const(); ok && c.Cmp(big.NewInt(48)) <= 0 {
+		ni = inner
+		for j := int64(0); j < c.Int64(); j++ {
+			at := BVBin("bvadd", sl.T[1], BVInt(j, 64))
+			ni = Store(ni, at, Select(fresh, at))
+		}
+	} else {
+		ni = lambdaArr(SBV(8), func(j Term) Term {
+			return Ite(inRange(j, sl.T[1], sl.T[2]), Select(fresh, j), Select(inner, j))
+		}, x)
+	}
+	f.cur.heap = x.H.SetAt(f.cur.heap, "M.uint8[]", sl.T[0], Store(m, sl.T[0], ni))
 }
